@@ -92,6 +92,28 @@ func c07Behaviours(r *Rng) []peerBehaviour {
 	return bs
 }
 
+// execBounded runs one client call with a watchdog: a call that has not returned after `limit` is
+// reported as "hung" (its goroutine, which holds the client's mutex, is abandoned; the caller must
+// not Close the client then).
+func execBounded(op *Op, mc *modbus.ModbusClient, limit time.Duration) (out string, hung bool) {
+	done := make(chan string, 1)
+	go func() { done <- op.Exec(mc) }()
+	select {
+	case out = <-done:
+		return out, false
+	case <-time.After(limit):
+		return "hung", true
+	}
+}
+
+func hangLimit(T time.Duration, kind string, speed uint) time.Duration {
+	l := T + 3*time.Second
+	if isRTUKind(kind) {
+		l += rtuMarginFor(speed, 8)
+	}
+	return l
+}
+
 func rtuMarginFor(speed uint, reqLen int) time.Duration {
 	t1, t35 := modbus.VerifSerialTimings(speed)
 	return 2*t35 + time.Duration(reqLen)*t1 + 256*t1 + 500*time.Microsecond
@@ -171,6 +193,12 @@ func init() {
 				jobs = append(jobs, job{kind: kind, real: true, b: immediate, speed: 1200, T: T2})
 			}
 		}
+		// the peer has stopped draining: the request write itself blocks; the deadline must bound it
+		// on every transport (in-memory connection whose writes block until the WRITE deadline)
+		writeBlocked := peerBehaviour{"write-blocked", func(w wireReq, feed func([]byte), stop <-chan struct{}, T time.Duration) {}}
+		for _, kind := range []string{"tcp", "tcp+tls", "rtuovertcp", "rtu"} {
+			jobs = append(jobs, job{kind: kind, b: writeBlocked})
+		}
 		var wg sync.WaitGroup
 		sem := make(chan struct{}, 24)
 		for ji, j := range jobs {
@@ -215,14 +243,17 @@ func init() {
 							}
 						}
 						t0 := time.Now()
-						out = op.Exec(mc)
+						var hung bool
+						out, hung = execBounded(op, mc, hangLimit(T, "rtu", speed))
 						elapsed = time.Since(t0)
 						close(stop)
 						deadlines = -1
-						mc.Close()
+						if !hung {
+							mc.Close()
+						}
 						return
 					}
-					conn := &TimedConn{}
+					conn := &TimedConn{BlockWrites: j.b.name == "write-blocked"}
 					conf := &modbus.ClientConfiguration{URL: j.kind + "://timed", Speed: speed, Timeout: T, Logger: quietLog}
 					if j.kind == "tcp+tls" {
 						conf.TLSClientCert, conf.TLSRootCAs = nil, nil
@@ -241,11 +272,16 @@ func init() {
 					}
 					base := len(conn.Deadlines)
 					t0 := time.Now()
-					out = op.Exec(mc)
+					var hung bool
+					out, hung = execBounded(op, mc, hangLimit(T, j.kind, speed))
 					elapsed = time.Since(t0)
 					close(stop)
 					deadlines = len(conn.Deadlines) - base
-					mc.Close()
+					if !hung {
+						mc.Close()
+					} else {
+						deadlines = -1
+					}
 				}
 				margin := slack
 				if isRTUKind(j.kind) {
@@ -256,7 +292,7 @@ func init() {
 				}
 				for try := 0; try < 3; try++ { // a bound is only reported when three consecutive runs exceed it
 					attempt()
-					if elapsed <= T+margin {
+					if elapsed <= T+margin || out == "hung" {
 						break
 					}
 				}
@@ -288,7 +324,7 @@ func init() {
 				case !strings.HasSuffix(j.b.name, "-valid") && strings.HasPrefix(out, "ok:"):
 					res.Add(Finding{Kind: "property", Check: "bogus-success", Line: label, Impl: out, Expect: "an error"})
 				}
-				if !j.real && deadlines >= 0 {
+				if !j.real && deadlines >= 0 && j.b.name != "write-blocked" {
 					minD, maxD := 1, 1
 					if isRTUKind(j.kind) {
 						minD, maxD = 2, 3 // before the write, after the emulated transmission, + one in the flush
@@ -345,9 +381,11 @@ func realSocketRun(kind string, b peerBehaviour, op *Op, T time.Duration, speed 
 		if err != nil || mc.Open() != nil {
 			return "setup-failed", 0
 		}
-		defer mc.Close()
 		t0 := time.Now()
-		out := op.Exec(mc)
+		out, hung := execBounded(op, mc, hangLimit(T, kind, speed))
+		if !hung {
+			mc.Close()
+		}
 		return out, time.Since(t0)
 	}
 	ln, err := net.Listen("tcp", "127.0.0.1:0")
@@ -380,9 +418,11 @@ func realSocketRun(kind string, b peerBehaviour, op *Op, T time.Duration, speed 
 	if err != nil || mc.Open() != nil {
 		return "setup-failed", 0
 	}
-	defer mc.Close()
 	t0 := time.Now()
-	out := op.Exec(mc)
+	out, hung := execBounded(op, mc, hangLimit(T, kind, speed))
+	if !hung {
+		mc.Close()
+	}
 	return out, time.Since(t0)
 }
 
